@@ -287,11 +287,20 @@ macro_rules! common_api {
         fn shards(&self) -> usize {
             self.shards
         }
+        // scene 0 goes through the default-scene entry points of the API
         fn skip(&mut self, scene: u64, n: usize) {
-            self.t.skip_epochs_for_scene(scene, n)
+            if scene == 0 {
+                self.t.skip_epochs(n)
+            } else {
+                self.t.skip_epochs_for_scene(scene, n)
+            }
         }
         fn idle(&mut self, scene: u64) -> Vec<Rec> {
-            self.t.idle_tracks_with_scene(scene).iter().map(rec).collect()
+            if scene == 0 {
+                self.t.idle_tracks().iter().map(rec).collect()
+            } else {
+                self.t.idle_tracks_with_scene(scene).iter().map(rec).collect()
+            }
         }
         fn clear(&mut self) {
             self.t.clear_wasted()
@@ -303,7 +312,11 @@ macro_rules! common_api {
             (self.t.active_shard_stats(), self.t.wasted_shard_stats())
         }
         fn epoch(&self, scene: u64) -> usize {
-            self.t.current_epoch_with_scene(scene)
+            if scene == 0 {
+                self.t.current_epoch()
+            } else {
+                self.t.current_epoch_with_scene(scene)
+            }
         }
         fn main_uid(&self) -> u64 {
             self.t.get_main_store().verif_uid()
@@ -324,7 +337,11 @@ impl Drv for DSort {
         false
     }
     fn predict(&mut self, scene: u64, dets: &[Det]) -> Vec<Rec> {
-        self.t.predict_with_scene(scene, &sort_input(dets)).iter().map(rec).collect()
+        if scene == 0 {
+            self.t.predict(&sort_input(dets)).iter().map(rec).collect()
+        } else {
+            self.t.predict_with_scene(scene, &sort_input(dets)).iter().map(rec).collect()
+        }
     }
     fn predict_batch(&mut self, b: &[(u64, Vec<Det>)]) -> Vec<(u64, Vec<Rec>)> {
         b.iter().map(|(s, d)| (*s, self.predict(*s, d))).collect()
@@ -417,7 +434,11 @@ impl Drv for DVisual {
     }
     fn predict(&mut self, scene: u64, dets: &[Det]) -> Vec<Rec> {
         let obs: Vec<VisualSortObservation> = dets.iter().map(vis_obs).collect();
-        self.t.predict_with_scene(scene, &obs).iter().map(rec).collect()
+        if scene == 0 {
+            self.t.predict(&obs).iter().map(rec).collect()
+        } else {
+            self.t.predict_with_scene(scene, &obs).iter().map(rec).collect()
+        }
     }
     fn predict_batch(&mut self, b: &[(u64, Vec<Det>)]) -> Vec<(u64, Vec<Rec>)> {
         b.iter().map(|(s, d)| (*s, self.predict(*s, d))).collect()
